@@ -85,6 +85,17 @@ def cli_fallback(smt, timeout_s):
         os.unlink(path)
 
 
+def _work_cli(job):
+    name, smt, timeout_ms, _ = job
+    t0 = time.time()
+    v, nm = cli_fallback(smt, timeout_ms / 1000.0)
+    return dict(name=name, verdict=v, solver=nm or "cli", time=time.time() - t0, model=None, reason="")
+
+
+def _work_any(job):
+    return _work_cli(job[1:]) if job[0] == "cli" else _work(job[1:])
+
+
 def discharge(obls, timeout_ms=20000, jobs=None, fallback=True):
     """stage 1: short budget, definitions-last order; stage 2: the other two assertion orders (solver heuristics are
     order sensitive); stage 3: full budget; stage 4: cvc5 / z3-4.8 on the SMT-LIB text"""
@@ -107,12 +118,18 @@ def discharge(obls, timeout_ms=20000, jobs=None, fallback=True):
         j2 = []
         for i in open_:
             for order in (1, 2):
-                j2.append(("%d/%d" % (i, order), to_smt2(obls[i], order), short, True))
-        r2 = run(j2)
+                j2.append(("z3", "%d/%d" % (i, order), to_smt2(obls[i], order), short, True))
+            j2.append(("cli", "%d/cli" % i, to_smt2(obls[i], 0), 2 * short, True))
+        with ctx.Pool(jobs) as pool:
+            r2 = pool.map(_work_any, j2, chunksize=1)
         for n, i in enumerate(open_):
-            for x in r2[2 * n : 2 * n + 2]:
+            cands = r2[3 * n : 3 * n + 3]
+            for k, x in enumerate(cands):
                 if x["verdict"] in ("sat", "unsat"):
-                    x["solver"] += " (reordered)"
+                    if k < 2:
+                        x["solver"] += " (reordered)"
+                    if x["verdict"] == "sat" and x.get("model") is None:
+                        continue  # a CLI 'sat' carries no model: keep looking, the last stage re-derives it
                     results[i] = x
                     break
     open_ = [i for i in open_ if results[i]["verdict"] in ("unknown", "error")]
